@@ -1828,6 +1828,9 @@ mainloop:
 				return p.Handshaked() && p.LastBlockIndex() < b.Index
 			})
 			s.extensiblePool.RemoveStale(b.Index)
+			// The block could be added not by the queues, wake them up then.
+			s.bQueue.Notify()
+			s.bFetcherQueue.Notify()
 		}
 	}
 drainBlocksLoop:
